@@ -20,7 +20,20 @@ impl Database {
             &String::from(format!("{prefix}_{key}", key = key, prefix = CONFLICTS_KEY)),
             true,
         );
+        if key.is_empty() {
+            // All the conflicts of the database
+            return pendding_conflict;
+        }
+        // The pattern also matches the conflicts of every key whose name contains this one's
+        // (`ka` and `kab`): only `<prefix>_<key>_<opp id>` belongs to this key
+        let own_prefix = format!("{prefix}_{key}_", key = key, prefix = CONFLICTS_KEY);
         pendding_conflict
+            .into_iter()
+            .filter(|conflict_key| match conflict_key.strip_prefix(&own_prefix) {
+                Some(opp_id) => !opp_id.is_empty() && opp_id.chars().all(|c| c.is_ascii_digit()),
+                None => false,
+            })
+            .collect()
     }
     // Separate local conflict with replication conflict
     pub fn try_resolve_conflict_response(
